@@ -117,9 +117,6 @@ end TF.InterpSpec
 namespace TF.InterpSpec
 open TF TF.Engine TF.Spec
 
-theorem R_ok_of_toOption {α : Type} {r : R α} {a : α} (h : r.toOption = some a) : r = .ok a := by
-  cases r <;> simp_all
-
 /-- Names of the fold's keys: the count-output names, then every output name below the fold. -/
 theorem foldKeys_names (W : World) (e : Eid) (hk : ((W.FK e).map (·.2)).Perm (W.CO e ++ W.ON e))
     (news : List ((Eid × Name) × Option Value)) (hn : (news.map (·.1)).Perm (W.FK e)) :
@@ -172,9 +169,9 @@ theorem tag?_impEntries (W : World) (c : Ctx) (I0 : List (TagKey × Tagged)) (im
   rw [this _ _ _ hnd' hmem]; rfl
 
 /-- The imported-tag invariant of the contexts a fold's component starts from. -/
-theorem importsOK_inner (W : World) {miss : Bool} {n : Name} {params : Params} {fds : List FDir}
+theorem importsOK_inner (W : World) {n : Name} {params : Params} {fds : List FDir}
     {child : QNode} {vid : Vid} {L : List Ev} {f : Fold} {ssIn : List Stage} {evsIn : List Ev}
-    (facts : FoldFacts W miss n params fds child vid L f ssIn evsIn)
+    (facts : FoldFacts W n params fds child vid L f ssIn evsIn)
     (base : List (Name × Tagged)) (c : Ctx) (hi : Inv W c L) (himp : ImportsOK W c base)
     (hn : (base.map (·.1) ++ tagNames W L).Nodup) (c0 : Ctx)
     (h0 : c0.importedTags = c.importedTags ++ impEntries W c f.imports) :
@@ -215,28 +212,25 @@ theorem importsOK_inner (W : World) {miss : Bool} {n : Name} {params : Params} {
         have := tag?_base_prefix (l := L.flatMap (tagsEv W c)) (o := []) (h2 t hnr)
         exact this
 
-/-- The fold stage for a context whose source vertex is missing: the fold does not exist. -/
-theorem fold_stage_none (W : World) (hl : W.lim = false) {miss : Bool} {n : Name} {params : Params}
+/-- The fold stage for a context whose source vertex is missing: the fold does not exist; its
+post-filters (F-9 fixed: they run on the placeholder `Null`) pass, as the specification says. -/
+theorem fold_stage_none (W : World) (hl : W.lim = false) {n : Name} {params : Params}
     {fds : List FDir} {child : QNode} {vid : Vid} {L : List Ev} {f : Fold} {ssIn : List Stage}
-    {evsIn : List Ev} (facts : FoldFacts W miss n params fds child vid L f ssIn evsIn)
-    (hcertIn : NodeCert (W.inner f) false child f.toVid [] ssIn evsIn)
+    {evsIn : List Ev} (facts : FoldFacts W n params fds child vid L f ssIn evsIn)
+    (hcertIn : NodeCert (W.inner f) child f.toVid [] ssIn evsIn)
     (fuel k : Nat) (hvisitIn : VisitOK [f.toVid] ssIn)
     (hnilIn : ∀ s ∈ ssIn, StageNil (W.inner f) k s)
     (base : List (Name × Tagged)) (c : Ctx) (hi : Inv W c L) (himp : ImportsOK W c base)
-    (hv : c.vertexAt? vid = some none) (hmiss : miss = false → False)
+    (hvL : Ev.vtx vid ∈ L) (hv : c.vertexAt? vid = some none)
     (hs : SimHyps W base (L ++ [.fold f.eid])) :
     SimO (absL W base (L ++ [.fold f.eid]))
       (fun c' => Ext c c' ∧ Inv W c' (L ++ [.fold f.eid]) ∧ c'.active = none)
       (stageO W (k + 1) (.fold f) c)
       (evalEdge W.senv fuel (ownersOf W.D none) n params (.fold fds) child none
         (absL W base L c)).toOption := by
-  obtain ⟨fromV, hfromV⟩ := Option.isSome_iff_exists.1 facts.fromV
-  rw [← facts.from_] at hfromV
+  obtain ⟨fromV, hfromV0⟩ := Option.isSome_iff_exists.1 facts.fromV
+  have hfromV : W.comp.vertex? f.fromVid = some fromV := by rw [facts.from_]; exact hfromV0
   obtain ⟨rootV, evs', sfs, _, hrootV, hrootVid, hflt⟩ := hcertIn.dest
-  have hpost : f.post = [] := by
-    rcases facts.guard with h | h
-    · exact h
-    · exact absurd h (by intro hm; exact hmiss hm)
   have hfresh : f.eid ∉ fkeys c := by
     rw [hi.fk]
     intro hm
@@ -270,13 +264,48 @@ theorem fold_stage_none (W : World) (hl : W.lim = false) {miss : Bool} {n : Name
       { impCtx c none (impEntries W c f.imports) with
         foldCounts := (impCtx c none (impEntries W c f.imports)).foldCounts ++ [(f.eid, none)] }
       c.importedTags (impVal W c) rfl hndI
+    -- the post-filters: every one passes the context (no active vertex)
+    obtain ⟨c1, hc1⟩ : ∃ c1 : Ctx, c1 = { ({ c with active := none } : Ctx) with
+        foldCounts := c.foldCounts ++ [(f.eid, none)] } := ⟨_, rfl⟩
+    have hc2 : ({ ({ impCtx c none (impEntries W c f.imports) with
+        foldCounts := (impCtx c none (impEntries W c f.imports)).foldCounts ++
+          [(f.eid, none)] } : Ctx) with importedTags := c.importedTags } : Ctx) = c1 := by
+      rw [hc1]; rfl
+    rw [hc2] at hrem
+    have hext1 : Ext c c1 := by
+      rw [hc1]; exact ⟨⟨[], by simp⟩, ⟨[(f.eid, none)], rfl⟩, ⟨[], by simp⟩, rfl, rfl⟩
+    have hact1 : c1.active = none := by rw [hc1]
+    have hlookx : look c vid = none := by unfold look; rw [hv]; rfl
+    have hcnt1 : c1.foldCount? f.eid = some none := by
+      rw [hc1]
+      unfold Engine.Ctx.foldCount?
+      simp only
+      rw [List.find?_append]
+      have : List.find? (fun p => p.1 == f.eid) c.foldCounts = none := by
+        rw [List.find?_eq_none]
+        intro p hp hpe
+        apply hfresh
+        exact List.mem_map.2 ⟨p, hp, by simpa using hpe⟩
+      simp [this]
+    have himp1 : ImportsOK W c1 base := himp.of_imported (by rw [hc1])
+    have hsem := tagSem_post W base (c := c) (c1 := c1) (u := vid) hfromV0 hi hvL hext1
+      (by rw [hact1, hlookx]) himp1 f.eid none facts.inComp hcnt1 hs.tagNodup []
+    have hpost : applyPostFilters W.env W.comp f f.post c1 = .ok (some c1) := by
+      have hsem' : TagSem W f.fromVid c1
+          ⟨(absL W base L c).tags ++ (W.CT f.eid).map fun m => (m, cntTag none), []⟩
+          (TRefPost W vid L f.eid) := by
+        rw [facts.from_]; exact hsem
+      exact applyPostFilters_none W f (TRefPost W vid L f.eid) c1 _ hsem' hact1 hcnt1
+        (countFilterPairs fds) f.post facts.post
     rw [foldFinish_none W f (impCtx c none (impEntries W c f.imports)) [] hvf
-      (foldCount?_none_of_fresh c f.eid hfresh) _ hrem hpost,
+      (foldCount?_none_of_fresh c f.eid hfresh) c1 hrem hpost,
       foldOutputs_default W f none (Or.inl rfl)]
     simp only [R.bind_ok, Option.map_none]
     rw [mergeFolded_fresh]
-    · rfl
+    · rw [hc1]; rfl
     · intro p hp
+      have hfv1 : fvNames c1 = fvNames c := by rw [hc1]; rfl
+      rw [hfv1]
       have hpn : p.1.2 ∈ W.CO f.eid ++ W.ON f.eid := by
         apply hkE.mem_iff.1
         rw [facts.fk]
@@ -352,9 +381,9 @@ namespace TF.InterpSpec
 open TF TF.Engine TF.Spec
 
 /-- The hypotheses of the simulation of the fold's component, derived from the outer ones. -/
-theorem simHyps_inner (W : World) {miss : Bool} {n : Name} {params : Params}
+theorem simHyps_inner (W : World) {n : Name} {params : Params}
     {fds : List FDir} {child : QNode} {vid : Vid} {L : List Ev} {f : Fold} {ssIn : List Stage}
-    {evsIn : List Ev} (facts : FoldFacts W miss n params fds child vid L f ssIn evsIn)
+    {evsIn : List Ev} (facts : FoldFacts W n params fds child vid L f ssIn evsIn)
     (base : List (Name × Tagged)) (c : Ctx) (hs : SimHyps W base (L ++ [.fold f.eid]))
     (hndIn : (evsIn.map evVid).Nodup) :
     SimHyps (W.inner f) (absL W base L c).tags evsIn := by
@@ -380,10 +409,10 @@ theorem simHyps_inner (W : World) {miss : Bool} {n : Name} {params : Params}
     exact (List.nodup_append.1 (List.nodup_append.1 hon).2.1).2.1
 
 /-- The fold stage for a context whose source vertex exists. -/
-theorem fold_stage_some (W : World) (hl : W.lim = false) {miss : Bool} {n : Name} {params : Params}
+theorem fold_stage_some (W : World) (hl : W.lim = false) {n : Name} {params : Params}
     {fds : List FDir} {child : QNode} {vid : Vid} {L : List Ev} {f : Fold} {ssIn : List Stage}
-    {evsIn : List Ev} (facts : FoldFacts W miss n params fds child vid L f ssIn evsIn)
-    (hcertIn : NodeCert (W.inner f) false child f.toVid [] ssIn evsIn)
+    {evsIn : List Ev} (facts : FoldFacts W n params fds child vid L f ssIn evsIn)
+    (hcertIn : NodeCert (W.inner f) child f.toVid [] ssIn evsIn)
     (fuel k : Nat) (hvisitIn : VisitOK [f.toVid] ssIn)
     (hnilIn : ∀ s ∈ ssIn, StageNil (W.inner f) k s) (hndIn : (evsIn.map evVid).Nodup)
     (hin : ∀ (base' : List (Name × Tagged)) (c0 : Ctx), Inv (W.inner f) c0 [] → c0.active.isSome →
@@ -526,7 +555,7 @@ theorem fold_stage_some (W : World) (hl : W.lim = false) {miss : Bool} {n : Name
         simp [this]
       have himp1 : ImportsOK W c1 base := himp.of_imported (by rw [hc1])
       have hsem := tagSem_post W base (c := c) (c1 := c1) (u := vid) hfromV hi hvL hext1
-        (by rw [hact1, hlookx]) himp1 f.eid computed.length facts.inComp hcnt1 hs.tagNodup a.outs
+        (by rw [hact1, hlookx]) himp1 f.eid (some computed.length) facts.inComp hcnt1 hs.tagNodup a.outs
       have hsem' : TagSem W f.fromVid c1
           ⟨(absL W base L c).tags ++ (countTagNames fds).map fun m =>
             (m, Tagged.some (Value.uint64 (UInt64.ofNat computed.length))), a.outs⟩
